@@ -183,6 +183,19 @@ func genSeqPlan(prop string, seed uint64, tier string) *Plan {
 			c.DataFileMax = c.BodyMax + r.Pick64(1024, 2048, 4096)
 		}
 		c.NoGCDays = 0
+	case "C17":
+		w.restart = 1
+		w.gc = 12
+		w.set = 45
+		w.del = 8
+		w.advance = 8
+		nOps = r.Range(20, 90)
+		c.BodyMax = r.Pick64(300, 512, 1024)
+		c.DataFileMax = r.Pick64(768, 1024, 2048, 4096)
+		if r.Bool(1, 2) {
+			c.DataFileMax = c.BodyMax + r.Pick64(1024, 2048, 4096)
+		}
+		c.NoGCDays = r.Pick(0, 0, 1, 7)
 	case "C13":
 		w.restart = 3
 		w.gc = 3
@@ -305,6 +318,9 @@ func genSeqPlan(prop string, seed uint64, tier string) *Plan {
 			}
 		case "advance":
 			op.D = r.Pick64(1000, 2000, 6000, 61000, 3600*1000, 86400*1000*2)
+			if prop == "C17" {
+				op.D = r.Pick64(2000, 3600*1000, 86400*1000, 86400*1000*2, 86400*1000*8, 86400*1000*31)
+			}
 		case "restart":
 			if restarts >= 5 {
 				op.Kind = "get"
@@ -331,6 +347,12 @@ func genSeqPlan(prop string, seed uint64, tier string) *Plan {
 			op.GCDays = r.Pick(-1, 0, 0, 0)
 			op.Merge = r.Bool(1, 2)
 			op.Pretend = r.Bool(1, 10)
+			if prop == "C17" {
+				op.GCStart = r.Pick(-7, -1, -1, 0, 0, 1, 2, 3, 4, 6, 9, 997, 998, 5000)
+				op.GCEnd = r.Pick(-3, -1, -1, 0, 1, 2, 3, 4, 6, 9, 997, 100000)
+				op.GCDays = r.Pick(-1, -1, 0, 0, 1, 3, 7, 30)
+				op.Pretend = r.Bool(1, 5)
+			}
 		case "list":
 			op.Delta = int64(r.U64() >> 1)
 		}
